@@ -108,6 +108,10 @@ func TestC20_Child(t *testing.T) {
 		m["appender.unused.type"] = "Discard"
 		m["logger.l.type"], m["logger.l.fileDir"], m["logger.l.fileName"], m["logger.l.layout.type"] = "RollingFile", s.Dir, "out.log", s.Layout
 		m["logger.l.rotation"], m["logger.l.async"] = "1s", "false"
+		if s.Pad%2 == 1 {
+			// the warn-and-above file of its own: every second call below is an Error call
+			m["logger.l.separate"] = "true"
+		}
 	case "consolelogger":
 		m["appender.unused.type"] = "Discard"
 		m["logger.l.type"], m["logger.l.layout.type"] = "Console", s.Layout
@@ -165,6 +169,10 @@ func TestC20_Child(t *testing.T) {
 		tg := tagT
 		if s.Kind == "twofiles" && (g+i)%2 == 1 {
 			tg = tagU
+		}
+		if s.Kind == "rollinglogger" && i%2 == 1 {
+			log.Error(context.Background(), tg, log.Int("g", g), log.Int("seq", i), log.String("pad", pad), log.Uint("crc", crc))
+			return
 		}
 		log.Info(context.Background(), tg, log.Int("g", g), log.Int("seq", i), log.String("pad", pad), log.Uint("crc", crc))
 	}
@@ -255,7 +263,11 @@ func TestC20_Child(t *testing.T) {
 			for s.Straddle && time.Now().Before(from) {
 			}
 			for i := 0; i < s.N || (s.Straddle && i < 50000 && time.Now().Before(until)); i++ {
-				pad := strings.Repeat(string(rune('a'+(g+i)%26)), (s.Pad*(i+1))%3000)
+				padLen := (s.Pad * (i + 1)) % 3000
+				if s.Pad > 10000 && !s.Straddle && i%7 == 2 {
+					padLen = s.Pad + i // a line well beyond the buffer-reuse cap (10 KB): one write all the same
+				}
+				pad := strings.Repeat(string(rune('a'+(g+i)%26)), padLen)
 				crc := crc32.ChecksumIEEE([]byte(strconv.Itoa(g) + "/" + strconv.Itoa(i) + "/" + pad))
 				if handle == nil && !s.Straddle && !strings.HasPrefix(s.Kind, "restarted-") && i%5 == 3 {
 					// a call whose field cannot be encoded (its MarshalJSON / EncodeArray panics): if the
@@ -455,7 +467,7 @@ func TestC20_CrashPoints(t *testing.T) {
 				G:      rapid.IntRange(1, 4).Draw(t, l+"G"),
 				N:      rapid.SampledFrom([]int{1, 5, 30, 200, 1500}).Draw(t, l+"N"),
 				Mode:   rapid.SampledFrom([]string{"kill", "exit0", "exit3"}).Draw(t, l+"mode"),
-				Pad:    rapid.SampledFrom([]int{0, 7, 131, 997}).Draw(t, l+"pad"),
+				Pad:    rapid.SampledFrom([]int{0, 7, 131, 997, 20011}).Draw(t, l+"pad"),
 			}
 			s.K = rapid.IntRange(1, s.G*s.N).Draw(t, l+"K")
 			if strings.Contains(s.Kind, "rolling") && rapid.IntRange(0, 2).Draw(t, l+"straddle") > 0 {
